@@ -474,7 +474,8 @@ def verdict(real, spec):
 
 def python_src(c, d, ctx, ku, ii, compact):
     imports = G6.IMPORTS if isinstance(ctx, G6.XContext) else SG.IMPORTS
-    return (imports + "from typedpy import Deserializer\nfrom typedpy.structures import TypedPyDefaults\n" + ctx.source() +
+    source = "".join(G6.class_src(ctx.ast(n)) + "\n" for n in class_closure(ctx, [c["name"]]))
+    return (imports + "from typedpy import Deserializer\nfrom typedpy.structures import TypedPyDefaults\n" + source +
             "\nTypedPyDefaults.ignore_invalid_additional_properties_in_deserialization = %r\n"
             "TypedPyDefaults.compact_deserialization_default = %r\n"
             "print(Deserializer(%s).deserialize(%r, keep_undefined=%r))\n" % (ii, compact, c["name"], d, ku))
@@ -525,8 +526,15 @@ def image_cases(rnd, ctx, pools, tier, images_per_class=4, n_cor=10, n_deep=0, s
 
 def judge(rep, stream, ctx, cases, model_world=True):
     """run the implementation and the oracle on every case; report spec failures as findings"""
+    frag = {}
     for case in cases:
         c = case["c"]
+        if model_world:
+            # is the case inside the hypothesis of theorem C06_error_class (env_posfree of the classes it reaches)?
+            if c["name"] not in frag:
+                frag[c["name"]] = all(G6.posfree(fd["field"]) for n in class_closure(ctx, [c["name"]])
+                                      for fd in ctx.ast(n)["fields"])
+            rep.stat(stream, "C06_error_class-hypotheses:" + ("hold" if frag[c["name"]] else "positional-outside-wrapper"))
         case["real"] = run_real(ctx.classes[c["name"]], case["doc"], case["ku"], case["ii"], case["compact"])
         case["spec"] = run_spec(c, case["doc"], ctx, case["ku"], case["ii"], case["compact"])
         v = verdict(case["real"], case["spec"])
@@ -554,7 +562,7 @@ def judge(rep, stream, ctx, cases, model_world=True):
             rep.stat(stream, "ambiguous-reading:" + ("acceptance" if nt.amb_accept else "value"))
         if v is None:
             continue
-        shape = "%s:%s" % (case["label"], case["kind"])
+        shape = "%s:%s" % (case["label"].split("/")[0] if case["label"].startswith("lattice/") else case["label"], case["kind"])
         attr = None
         if v.startswith("non-te-ve:"):
             if v.split(":", 1)[1] in outside:
